@@ -1,38 +1,386 @@
+//! acbsim — deterministic simulation with fault injection for tsiemens/acb.
+//!
+//!   acbsim run <PROPERTY> <quick|thorough>     driver: spawns worker processes, merges, writes evidence
+//!   acbsim worker ...                          (internal)
+//!   acbsim replay <file>                       re-execute a replay file in a fresh process
+//!   acbsim audit-determinism [PROPERTY] [N]    run N seeds twice at worker counts 1 and 16, diff digests
+
+mod c09;
+mod common;
 mod interpose;
 mod prng;
 mod proc;
 mod simfs;
 
-use std::collections::HashSet;
-use time::macros::date;
+use common::*;
+use serde_json::Value;
+use std::io::Write;
+use std::process::{Command, Stdio};
+use std::time::Instant;
+
+const EXIT_OK: i32 = 0;
+const EXIT_VIOLATION: i32 = 1;
+const EXIT_HARNESS: i32 = 2;
+
+macro_rules! dispatch {
+    ($prop:expr, $e:ident => $body:expr) => {
+        match $prop {
+            "C09" => {
+                let $e = &c09::C09;
+                $body
+            }
+            other => {
+                eprintln!("HARNESS-ERROR unknown property {}", other);
+                std::process::exit(EXIT_HARNESS);
+            }
+        }
+    };
+}
+
+fn base_seed() -> u64 {
+    match std::env::var("VERIF_SEED") {
+        Ok(s) if !s.trim().is_empty() => s.trim().parse::<u64>().unwrap_or_else(|_| {
+            // Non-numeric seeds are hashed, so any string is usable.
+            prng::fnv64(s.as_bytes())
+        }),
+        _ => DEFAULT_SEED,
+    }
+}
+
+fn n_workers() -> u64 {
+    if let Ok(s) = std::env::var("VERIF_WORKERS") {
+        if let Ok(n) = s.parse::<u64>() {
+            return n.clamp(1, 64);
+        }
+    }
+    std::thread::available_parallelism().map(|n| n.get() as u64).unwrap_or(4).clamp(1, 16)
+}
+
+#[derive(serde::Deserialize, Default)]
+struct KnownFindings {
+    #[serde(default)]
+    findings: Vec<KnownFinding>,
+}
+
+#[derive(serde::Deserialize)]
+struct KnownFinding {
+    property: String,
+    status: String,
+    signature: String,
+    #[serde(default)]
+    text: String,
+}
+
+fn load_known() -> KnownFindings {
+    match std::fs::read_to_string("/verif/known_findings.json") {
+        Ok(s) => serde_json::from_str(&s).unwrap_or_else(|e| {
+            eprintln!("HARNESS-ERROR cannot parse /verif/known_findings.json: {}", e);
+            std::process::exit(EXIT_HARNESS);
+        }),
+        Err(_) => KnownFindings::default(),
+    }
+}
+
+fn run_driver<E: Engine>(e: &E, tier: Tier) -> i32 {
+    let start = Instant::now();
+    let seed = base_seed();
+    let nw = n_workers();
+    let (mut count, mut soft) = e.budget(tier);
+    if let Ok(s) = std::env::var("VERIF_COUNT") {
+        if let Ok(n) = s.parse::<u64>() {
+            count = n;
+        }
+    }
+    if let Ok(s) = std::env::var("VERIF_SOFT_SECS") {
+        if let Ok(n) = s.parse::<u64>() {
+            soft = n;
+        }
+    }
+    println!("acbsim: property={} engine={} tier={} VERIF_SEED={} workers={} scenarios={} soft_deadline={}s", e.property(), e.engine_name(), tier.name(), seed, nw, count, soft);
+    let exe = std::env::current_exe().expect("current_exe");
+    let run_dir = format!("/verif/target/runs/{}-{}-{}", e.property(), tier.name(), std::process::id());
+    let _ = std::fs::remove_dir_all(&run_dir);
+    std::fs::create_dir_all(&run_dir).expect("create run dir");
+    let mut children = vec![];
+    for w in 0..nw {
+        let out = format!("{}/worker-{}.json", run_dir, w);
+        let child = Command::new(&exe)
+            .args(["worker", e.property(), tier.name(), &seed.to_string(), &w.to_string(), &nw.to_string(), &count.to_string(), &soft.to_string(), &out])
+            .stdin(Stdio::null())
+            .stdout(Stdio::inherit())
+            .stderr(Stdio::inherit())
+            .spawn()
+            .expect("spawn worker");
+        children.push((w, out, child));
+    }
+    // Hard watchdog: soft deadline + generous slack for minimisation.
+    let hard = start + std::time::Duration::from_secs(soft + 240);
+    let mut total = WorkerReport { first_index: u64::MAX, ..Default::default() };
+    let mut harness_errors: Vec<String> = vec![];
+    for (w, out, mut child) in children {
+        let status = loop {
+            match child.try_wait() {
+                Ok(Some(s)) => break Some(s),
+                Ok(None) => {
+                    if Instant::now() > hard {
+                        let _ = child.kill();
+                        let _ = child.wait();
+                        break None;
+                    }
+                    std::thread::sleep(std::time::Duration::from_millis(20));
+                }
+                Err(_) => break None,
+            }
+        };
+        let progress = std::fs::read_to_string(format!("{}.progress", out)).unwrap_or_default();
+        match status {
+            Some(s) if s.success() => match std::fs::read_to_string(&out).ok().and_then(|s| serde_json::from_str::<WorkerReport>(&s).ok()) {
+                Some(rep) => {
+                    total.evaluations += rep.evaluations;
+                    total.first_index = total.first_index.min(rep.first_index);
+                    total.last_index = total.last_index.max(rep.last_index);
+                    total.audit_reexecuted += rep.audit_reexecuted;
+                    total.audit_mismatches += rep.audit_mismatches;
+                    total.run_seconds = total.run_seconds.max(rep.run_seconds);
+                    total.stopped_by_deadline |= rep.stopped_by_deadline;
+                    total.violations.extend(rep.violations);
+                    total.stats.merge(rep.stats);
+                }
+                None => harness_errors.push(format!("worker {} produced no readable report", w)),
+            },
+            Some(s) => harness_errors.push(format!("worker {} died ({}) while executing scenario index {}", w, s, progress.trim())),
+            None => harness_errors.push(format!("worker {} exceeded the hard watchdog while executing scenario index {}", w, progress.trim())),
+        }
+    }
+    let _ = std::fs::remove_dir_all(&run_dir);
+    if total.first_index == u64::MAX {
+        total.first_index = 0;
+    }
+    harness_errors.extend(total.stats.harness_errors.iter().cloned());
+    for p in e.required_probes(tier) {
+        if total.stats.get(p) == 0 {
+            harness_errors.push(format!("reach probe {} stayed at zero", p));
+        }
+    }
+
+    // Known findings: suppress only listed, status=known signatures.
+    let known = load_known();
+    let mut new_violations: Vec<(String, Violation)> = vec![];
+    let mut known_seen = 0usize;
+    let mut printed: std::collections::BTreeSet<(String, String)> = Default::default();
+    total.violations.sort_by(|a, b| a.0.cmp(&b.0));
+    for (path, v) in &total.violations {
+        if !printed.insert((v.kind.clone(), v.signature.clone())) {
+            continue;
+        }
+        if let Some(k) = known.findings.iter().find(|k| k.property == e.property() && k.status == "known" && k.signature == v.signature) {
+            println!("KNOWN-FINDING: property={} {} [{}] replay={}", e.property(), k.text, v.signature, path);
+            known_seen += 1;
+        } else {
+            new_violations.push((path.clone(), v.clone()));
+        }
+    }
+    let wall = start.elapsed().as_secs_f64();
+    let ev = evidence_json(e, tier, seed, &total, wall, nw, new_violations.len(), known_seen);
+    let _ = std::fs::create_dir_all("/verif/evidence");
+    let ev_path = format!("/verif/evidence/{}.json", e.property());
+    std::fs::write(&ev_path, serde_json::to_string_pretty(&ev).unwrap()).expect("write evidence");
+    println!(
+        "acbsim: {} scenarios, {} simulated processes, {} distinct non-trivial, {} abstract states, audit {}/{} mismatches, {:.1}s",
+        total.evaluations,
+        total.stats.get("sim.processes"),
+        total.stats.nontrivial.len(),
+        total.stats.states.len(),
+        total.audit_mismatches,
+        total.audit_reexecuted,
+        wall
+    );
+    // Every reported replay file is re-executed in a fresh OS process and must reproduce.
+    for (path, _) in &new_violations {
+        let st = Command::new(&exe).args(["replay", path]).stdout(Stdio::null()).stderr(Stdio::null()).status();
+        match st {
+            Ok(s) if s.code() == Some(EXIT_VIOLATION) => {}
+            other => harness_errors.push(format!("replay of {} in a fresh process did not reproduce ({:?})", path, other.map(|s| s.code()))),
+        }
+    }
+    for (path, v) in &new_violations {
+        println!("VIOLATION property={} replay={}", e.property(), path);
+        println!("  kind={} signature={}", v.kind, v.signature);
+        for l in v.detail.lines().take(12) {
+            println!("  {}", l);
+        }
+    }
+    if !new_violations.is_empty() {
+        for h in harness_errors.iter().take(20) {
+            println!("NOTE harness: {}", h);
+        }
+        return EXIT_VIOLATION;
+    }
+    if !harness_errors.is_empty() {
+        for h in harness_errors.iter().take(20) {
+            println!("HARNESS-ERROR {}", h);
+        }
+        return EXIT_HARNESS;
+    }
+    println!("acbsim: property {} held on everything explored (evidence: {})", e.property(), ev_path);
+    EXIT_OK
+}
+
+fn run_worker_cmd<E: Engine>(e: &E, args: &[String]) -> i32 {
+    let tier = Tier::parse(&args[1]).expect("tier");
+    let seed: u64 = args[2].parse().unwrap();
+    let w: u64 = args[3].parse().unwrap();
+    let nw: u64 = args[4].parse().unwrap();
+    let count: u64 = args[5].parse().unwrap();
+    let soft: u64 = args[6].parse().unwrap();
+    let out = &args[7];
+    PROGRESS_PATH.with(|p| *p.borrow_mut() = Some(format!("{}.progress", out)));
+    let rep = run_worker(e, tier, seed, w, nw, count, soft);
+    std::fs::write(out, serde_json::to_string(&rep).unwrap()).expect("write worker report");
+    EXIT_OK
+}
+
+thread_local! {
+    pub static PROGRESS_PATH: std::cell::RefCell<Option<String>> = const { std::cell::RefCell::new(None) };
+}
+
+/// Called by run_worker before each scenario so that a dying worker names its seed.
+pub fn note_progress(index: u64) {
+    PROGRESS_PATH.with(|p| {
+        if let Some(path) = p.borrow().as_ref() {
+            let _ = std::fs::write(path, index.to_string());
+        }
+    });
+}
+
+fn replay<E: Engine>(e: &E, rf: &ReplayFile) -> i32 {
+    let sc: E::Sc = match serde_json::from_value(rf.scenario.clone()) {
+        Ok(s) => s,
+        Err(err) => {
+            println!("HARNESS-ERROR cannot decode scenario: {}", err);
+            return EXIT_HARNESS;
+        }
+    };
+    let mut st = Stats::default();
+    let out = e.execute(&sc, &mut st);
+    println!("replay: property={} engine={} base_seed={} index={} digest={:016x}", rf.property, rf.engine, rf.base_seed, rf.index, out.digest);
+    println!("replay: recorded violation kind={} signature={}", rf.violation.kind, rf.violation.signature);
+    let same = out.violations.iter().find(|v| v.kind == rf.violation.kind && v.signature == rf.violation.signature);
+    match same {
+        Some(v) => {
+            println!("VIOLATION property={} replay=(reproduced)", rf.property);
+            println!("  kind={} signature={}", v.kind, v.signature);
+            for l in v.detail.lines() {
+                println!("  {}", l);
+            }
+            println!("  identical_detail_to_recorded={}", v.detail == rf.violation.detail);
+            EXIT_VIOLATION
+        }
+        None => {
+            if out.violations.is_empty() {
+                println!("replay: NOT REPRODUCED (no violation on this tree)");
+                EXIT_OK
+            } else {
+                for v in &out.violations {
+                    println!("VIOLATION property={} replay=(different class) kind={} signature={}\n  {}", rf.property, v.kind, v.signature, v.detail);
+                }
+                EXIT_VIOLATION
+            }
+        }
+    }
+}
+
+fn audit<E: Engine>(e: &E, n: u64) -> i32 {
+    // N seeds, each executed in this process twice; the driver calls us at worker counts 1 and 16
+    // and compares the printed digests across processes.
+    let seed = base_seed();
+    let mut mism = 0;
+    let mut lines = vec![];
+    for idx in 0..n {
+        let s = prng::mix(seed, idx, e.lane());
+        let sc = e.generate(s, idx, Tier::Quick);
+        let mut st = Stats::default();
+        let a = e.execute(&sc, &mut st);
+        let b = e.execute(&sc, &mut st);
+        if a.digest != b.digest {
+            mism += 1;
+            println!("mismatch at index {}", idx);
+            if e.property() == "C09" {
+                let v = serde_json::to_value(&sc).unwrap();
+                c09::debug_nondeterminism(&serde_json::from_value(v).unwrap());
+            }
+        }
+        lines.push(format!("{} {:016x}", idx, a.digest));
+    }
+    let mut h = prng::fnv64(b"audit");
+    for l in &lines {
+        h = prng::fnv64_add(h, l.as_bytes());
+    }
+    println!("audit property={} seeds={} in_process_mismatches={} combined_digest={:016x}", e.property(), n, mism, h);
+    if mism > 0 {
+        EXIT_HARNESS
+    } else {
+        EXIT_OK
+    }
+}
+
+fn args_need_warm_up() -> bool {
+    matches!(std::env::args().nth(1).as_deref(), Some("worker") | Some("replay") | Some("audit") | Some("firstrun"))
+}
 
 fn main() {
-    for seed in [1u64, 1, 2, 3] {
-        let env = proc::ProcEnv::new(seed, date!(2022 - 01 - 20));
-        let out = proc::run_process(&env, || {
-            let hs: HashSet<&str> = ["a", "b", "c", "d", "e", "f"].into_iter().collect();
-            let order: Vec<&str> = hs.iter().copied().collect();
-            println!("order {:?}", order);
-            eprintln!("today {}", acb::util::date::today_local());
-            let now = std::time::SystemTime::now().duration_since(std::time::UNIX_EPOCH).unwrap().as_secs();
-            println!("now {}", now);
-            let dir = std::path::Path::new("/simfs/home/.acb");
-            acb::util::os::mk_writable_dir(dir).unwrap();
-            let p = dir.join("x.tmp");
-            std::fs::write(&p, b"hello world").unwrap();
-            let f = std::fs::File::open(&p).unwrap();
-            f.sync_all().unwrap();
-            drop(f);
-            std::fs::rename(&p, dir.join("x.csv")).unwrap();
-            let s = std::fs::read_to_string(dir.join("x.csv")).unwrap();
-            println!("read back {:?} meta {:?}", s, std::fs::metadata(dir.join("x.csv")).map(|m| m.len()));
-            println!("missing {:?}", std::fs::File::open(dir.join("nope")).map(|_| ()).map_err(|e| e.kind()));
-            let d = std::fs::File::open(dir).unwrap(); d.sync_all().unwrap();
-            order.join("")
-        });
-        println!("seed {} -> {:?}\n stdout={:?}\n stderr={:?}\n journal={:?}\n entropy={} clock={} unmod={:?}", seed, out.result,
-            String::from_utf8_lossy(&out.stdout), String::from_utf8_lossy(&out.stderr),
-            out.journal.iter().map(|o| o.describe()).collect::<Vec<_>>(), out.entropy_calls, out.clock_reads, out.unmodelled);
+    proc::install_panic_hook();
+    if args_need_warm_up() {
+        c09::warm_up();
     }
-    println!("real fs untouched: {}", !std::path::Path::new("/simfs").exists());
+    let args: Vec<String> = std::env::args().skip(1).collect();
+    if args.is_empty() {
+        eprintln!("usage: acbsim run <PROPERTY> <quick|thorough> | replay <file> | audit <PROPERTY> <N>");
+        std::process::exit(EXIT_HARNESS);
+    }
+    let code = match args[0].as_str() {
+        "run" => {
+            let tier = Tier::parse(args.get(2).map(|s| s.as_str()).unwrap_or("quick")).unwrap_or(Tier::Quick);
+            dispatch!(args[1].as_str(), e => run_driver(e, tier))
+        }
+        "worker" => dispatch!(args[1].as_str(), e => run_worker_cmd(e, &args[1..])),
+        "replay" => {
+            let text = std::fs::read_to_string(&args[1]).unwrap_or_else(|e| {
+                println!("HARNESS-ERROR cannot read {}: {}", args[1], e);
+                std::process::exit(EXIT_HARNESS);
+            });
+            let rf: ReplayFile = serde_json::from_str(&text).unwrap_or_else(|e| {
+                println!("HARNESS-ERROR cannot parse {}: {}", args[1], e);
+                std::process::exit(EXIT_HARNESS);
+            });
+            let prop = rf.property.clone();
+            dispatch!(prop.as_str(), e => replay(e, &rf))
+        }
+        "audit" => {
+            let n: u64 = args.get(2).and_then(|s| s.parse().ok()).unwrap_or(200);
+            dispatch!(args[1].as_str(), e => audit(e, n))
+        }
+        "firstrun" => {
+            let sc = c09::generate(prng::mix(base_seed(), 0, 9), 6);
+            c09::debug_nondeterminism(&sc);
+            0
+        }
+        "show" => {
+            // acbsim show <PROPERTY> <index>: print the generated scenario
+            let idx: u64 = args[2].parse().unwrap();
+            dispatch!(args[1].as_str(), e => {
+                let s = prng::mix(base_seed(), idx, e.lane());
+                let sc = e.generate(s, idx, Tier::Quick);
+                let v: Value = e.sample(&sc);
+                println!("{}", serde_json::to_string_pretty(&v).unwrap());
+                0
+            })
+        }
+        _ => {
+            eprintln!("unknown command");
+            EXIT_HARNESS
+        }
+    };
+    let _ = std::io::stdout().flush();
+    std::process::exit(code);
 }
